@@ -20,7 +20,7 @@ Rec(op, kem, bytes, kind, err, out, outn) ==
      out |-> out, outn |-> outn, pre |-> [seq |-> <<>>, ovf |-> FALSE], post |-> [seq |-> <<>>, ovf |-> FALSE],
      untouched |-> FALSE]
 
-IkmLens(kem) == {0, 1, Nsk(kem) - 1, Nsk(kem), Nsk(kem) + 1, 64, 65, 1000}
+IkmLens(kem) == {0, 1, Nsk(kem) - 1, Nsk(kem), Nsk(kem) + 1, 64, 65, 1000, 65535, 65536, 70000}
 Ikms(kem) == {Leaf("ikmlen" \o ToString(n), n) : n \in IkmLens(kem)}
              \cup {Leaf("ikm" \o ToString(i) \o "k" \o ToString(kem), Nsk(kem)) : i \in 1..NIkm}
 
